@@ -581,8 +581,15 @@ QXmppTask<QXmppMixManager::ChannelNodeResult> QXmppMixManager::requestChannelNod
 ///
 QXmppTask<QXmppMixManager::ConfigurationResult> QXmppMixManager::requestChannelConfiguration(const QString &channelJid)
 {
-    return chainMapSuccess(d->pubSubManager->requestItems<QXmppMixConfigItem>(channelJid, ns_mix_node_config.toString()), this, [](QXmppPubSubManager::Items<QXmppMixConfigItem> &&items) {
-        return items.items.takeFirst();
+    return chain<ConfigurationResult>(d->pubSubManager->requestItems<QXmppMixConfigItem>(channelJid, ns_mix_node_config.toString()), this, [](QXmppPubSubManager::ItemsResult<QXmppMixConfigItem> &&result) -> ConfigurationResult {
+        if (auto *items = std::get_if<QXmppPubSubManager::Items<QXmppMixConfigItem>>(&result)) {
+            // the service may answer with an empty item list
+            if (items->items.isEmpty()) {
+                return QXmppError { u"The service returned no item."_s, {} };
+            }
+            return items->items.takeFirst();
+        }
+        return std::get<QXmppError>(std::move(result));
     });
 }
 
@@ -622,8 +629,15 @@ QXmppTask<QXmppClient::EmptyResult> QXmppMixManager::updateChannelConfiguration(
 ///
 QXmppTask<QXmppMixManager::InformationResult> QXmppMixManager::requestChannelInformation(const QString &channelJid)
 {
-    return chainMapSuccess(d->pubSubManager->requestItems<QXmppMixInfoItem>(channelJid, ns_mix_node_info.toString()), this, [](QXmppPubSubManager::Items<QXmppMixInfoItem> &&items) {
-        return items.items.takeFirst();
+    return chain<InformationResult>(d->pubSubManager->requestItems<QXmppMixInfoItem>(channelJid, ns_mix_node_info.toString()), this, [](QXmppPubSubManager::ItemsResult<QXmppMixInfoItem> &&result) -> InformationResult {
+        if (auto *items = std::get_if<QXmppPubSubManager::Items<QXmppMixInfoItem>>(&result)) {
+            // the service may answer with an empty item list
+            if (items->items.isEmpty()) {
+                return QXmppError { u"The service returned no item."_s, {} };
+            }
+            return items->items.takeFirst();
+        }
+        return std::get<QXmppError>(std::move(result));
     });
 }
 
@@ -1255,8 +1269,9 @@ bool QXmppMixManager::handlePubSubEvent(const QDomElement &element, const QStrin
 
         switch (event.eventType()) {
         case QXmppPubSubEventBase::Items: {
-            const auto item = event.items().constFirst();
-            Q_EMIT channelConfigurationUpdated(pubSubService, item);
+            if (!event.items().isEmpty()) {
+                Q_EMIT channelConfigurationUpdated(pubSubService, event.items().constFirst());
+            }
             break;
         }
         case QXmppPubSubEventBase::Retract:
@@ -1276,8 +1291,9 @@ bool QXmppMixManager::handlePubSubEvent(const QDomElement &element, const QStrin
 
         switch (event.eventType()) {
         case QXmppPubSubEventBase::Items: {
-            const auto item = event.items().constFirst();
-            Q_EMIT channelInformationUpdated(pubSubService, item);
+            if (!event.items().isEmpty()) {
+                Q_EMIT channelInformationUpdated(pubSubService, event.items().constFirst());
+            }
             break;
         }
         case QXmppPubSubEventBase::Retract:
